@@ -218,6 +218,30 @@ def negative_sierra_templates(out_dir):
         "ti_snapshot_of_array_not_dup": ti("S", "Snapshot<Arr>", T, T, F, F, "type Arr = Array<felt252>;\n", "libfunc drop_s = drop<S>;\n", "drop_s([0]) -> ();\nreturn();", "verif::f@0([0]: S) -> ();"),
     }
     progs.update(tis)
+    # references (references.rs / cell_expression.rs): a value whose location is ap-relative must not survive a statement
+    # with an unknown ap change (call of a recursive function): temporaries, deferred additions, deferred double derefs
+    r_hdr = ("type felt252 = felt252;\ntype NZ = NonZero<felt252>;\ntype BoxF = Box<felt252>;\n"
+             "libfunc call_r = function_call<user@verif::r>;\nlibfunc felt252_is_zero = felt252_is_zero;\nlibfunc branch_align = branch_align;\n"
+             "libfunc drop_f = drop<felt252>;\nlibfunc drop_nz = drop<NZ>;\nlibfunc store_f = store_temp<felt252>;\nlibfunc dup_f = dup<felt252>;\n"
+             "libfunc felt252_add = felt252_add;\nlibfunc unbox_f = unbox<felt252>;\nlibfunc one = felt252_const<1>;\nlibfunc felt252_sub = felt252_sub;\n"
+             "libfunc disable_ap_tracking = disable_ap_tracking;\n")
+    # r: a recursive function (unknown ap change): r(n) = if n == 0 { 0 } else { r(n - 1) }
+    r_body = ("disable_ap_tracking() -> ();\nfelt252_is_zero([0]) { fallthrough() RNZ([1]) };\nbranch_align() -> ();\none() -> ([2]);\nstore_f([2]) -> ([2]);\nreturn([2]);\n"
+              "RNZ:\nbranch_align() -> ();\ndrop_nz([1]) -> ();\none() -> ([3]);\nstore_f([3]) -> ([3]);\ncall_r([3]) -> ([4]);\nreturn([4]);\n")
+    def rf(f_body, f_sig, n_f):
+        return r_hdr + f_body + r_body + "\n" + f_sig + "\nverif::r@%d([0]: felt252) -> (felt252);\n" % n_f
+    refs = {
+        # a temporary ([ap-1]) live across the call
+        "ref_temp_across_unknown_ap": rf("store_f([0]) -> ([2]);\nstore_f([1]) -> ([1]);\ncall_r([1]) -> ([3]);\ndrop_f([3]) -> ();\nstore_f([2]) -> ([2]);\nreturn([2]);\n",
+                                         "verif::f@0([0]: felt252, [1]: felt252) -> (felt252);", 6),
+        # a deferred addition of two temporaries live across the call
+        "ref_deferred_add_across_unknown_ap": rf("store_f([0]) -> ([0]);\ndup_f([0]) -> ([0], [5]);\nfelt252_add([0], [5]) -> ([2]);\nstore_f([1]) -> ([1]);\ncall_r([1]) -> ([3]);\ndrop_f([3]) -> ();\nstore_f([2]) -> ([2]);\nreturn([2]);\n",
+                                         "verif::f@0([0]: felt252, [1]: felt252) -> (felt252);", 8),
+        # a deferred double dereference ([[ap-1]]) live across the call
+        "ref_double_deref_across_unknown_ap": rf("store_temp_box([0]) -> ([0]);\nunbox_f([0]) -> ([2]);\nstore_f([1]) -> ([1]);\ncall_r([1]) -> ([3]);\ndrop_f([3]) -> ();\nstore_f([2]) -> ([2]);\nreturn([2]);\n",
+                                         "verif::f@0([0]: BoxF, [1]: felt252) -> (felt252);", 7).replace("libfunc one =", "libfunc store_temp_box = store_temp<BoxF>;\nlibfunc one ="),
+    }
+    progs.update(refs)
     for f in glob.glob(os.path.join(out_dir, "n_*.sierra")):
         os.unlink(f)
     for k, v in progs.items():
